@@ -455,3 +455,29 @@ func (c *Client) Vacuum(before time.Time) (string, error) {
 	}
 	return "", nil
 }
+
+// Diff summarises the difference between two row lists (only-in-want / only-in-got / order).
+func Diff(want, got Rows) string {
+	w := map[string]int{}
+	for _, r := range want {
+		w[r]++
+	}
+	var onlyGot, onlyWant []string
+	for _, r := range got {
+		if w[r] > 0 {
+			w[r]--
+		} else {
+			onlyGot = append(onlyGot, r)
+		}
+	}
+	for _, r := range want {
+		if w[r] > 0 {
+			w[r]--
+			onlyWant = append(onlyWant, r)
+		}
+	}
+	if len(onlyGot) == 0 && len(onlyWant) == 0 {
+		return fmt.Sprintf("same rows, different order: want=%v got=%v", want, got)
+	}
+	return fmt.Sprintf("missing=%v unexpected=%v (want %d rows, got %d)", onlyWant, onlyGot, len(want), len(got))
+}
